@@ -19,17 +19,18 @@ every nesting of tuples / lists / dicts of ANY width and depth, raises (of `Exce
 and try/except at every yield, `return` and `asynq.result()` of ANY kind of object (`valueKind`), plain synchronous calls,
 yielded instances of SUBCLASSES of tuple / list / dict (`Ys.sub`), async_proxy functions returning None or a container
 instead of one future (`Ys.pval`), futures that are not ConstFutures - ErrorFuture, lazy Future - (`Ys.ofut`), children whose
-explicit asyncio_fn is a generator-based coroutine (`Ys.gco`), a root that is a `pure=True` method (`observeR true`).
+explicit asyncio_fn is a generator-based coroutine (`Ys.gco`), a root that is a `pure=True` method (`observeR true`) - the
+last two ordinary cases since the repairs /repo 6607af4 and fec982c.
 
 Hypotheses, each with a machine-checked witness that it cannot be dropped FOR THE CODE AS IT IS (section B):
 * `p.safe`   - every handler of the program is `except Exception`, or the program raises no BaseException-only error
                (`C15_base_handler_counterexample`; a static over-approximation: sufficient, not a characterisation);
 * `p.plainY` - no yielded container is an instance of a subclass, no async_proxy function returns a non-future, every future
-               made in a yield is a ConstFuture, an ErrorFuture or a lazy Future, no explicit asyncio_fn of a yielded child is
-               a generator-based coroutine (`C15_container_subclass_counterexample`, `C15_proxy_value_counterexample`,
-               `C15_generator_coroutine_asyncio_fn_counterexample`);
-* `pm = false` (statements about a whole case, `observeR`) - the root function is not a `pure=True` METHOD: its binder has no
-               `.asyncio` (`C15_pure_method_root_counterexample`);
+               made in a yield is a ConstFuture, an ErrorFuture or a lazy Future (`C15_container_subclass_counterexample`,
+               `C15_proxy_value_counterexample`); a child whose explicit asyncio_fn is a generator-based coroutine (`Ys.gco`) is
+               INSIDE `plainY` since the repair 6607af4 (`C15_generator_coroutine_asyncio_fn_repaired`), and a whole case needs
+               no hypothesis on its root any more: a `pure=True` METHOD has `.asyncio` since fec982c
+               (`C15_case_spec_holds_partial` for every `pm`, `C15_pure_method_root_repaired`);
 * where a statement speaks about outcomes: `p.noSync` or "the asyncio run logged no synchronous call" - a plain synchronous
   call is refused under asyncio by design (`C15_noSync_necessary`); `s'.mode = false` (`C15_flag_off_necessary`);
 * `p.validCalls` is NOT a hypothesis of any theorem (third audit, C: the four statements about refused synchronous calls
@@ -169,13 +170,11 @@ theorem C15_spec_holds_partial (c : Call) (p : Prog) (hy : p.plainY = true) (hx 
 theorem C15_specP_holds_partial (c : Call) (p : Prog) (hy : p.plainY = true) (hx : p.safe = true) :
     specP c p (observe c p) = true := specP_holds c p hy hx
 
-/-- **C15 for a whole case** (what Drv/Asyncio.lean evaluates: the root may be declared as a `pure=True` method, `pm`): under
-    the explicit hypothesis `pm = false` - the root function has an `.asyncio` attribute - the observer accepts the model's
-    observations (`observeR false` is `observe`; the hypothesis cannot be dropped: `C15_pure_method_root_counterexample`) -/
-theorem C15_case_spec_holds_partial (pm : Bool) (c : Call) (p : Prog) (hpm : pm = false) (hy : p.plainY = true)
-    (hx : p.safe = true) : specPR pm c p (observeR pm c p) = true := by
-  subst hpm
-  exact specP_holds c p hy hx
+/-- **C15 for a whole case** (what Drv/Asyncio.lean evaluates: the root may be declared as a `pure=True` method, `pm`): the
+    observer accepts the model's observations WHATEVER `pm` is - since /repo fec982c a pure method has `.asyncio` and
+    `observeR pm` is `observe`; the former hypothesis `pm = false` is gone (`C15_pure_method_root_repaired`) -/
+theorem C15_case_spec_holds_partial (pm : Bool) (c : Call) (p : Prog) (hy : p.plainY = true)
+    (hx : p.safe = true) : specPR pm c p (observeR pm c p) = true := specP_holds c p hy hx
 
 /-! ## Section B: where the code as it is violates the property (genuine divergences), and why each hypothesis is needed -/
 
@@ -244,38 +243,44 @@ theorem C15_proxy_value_counterexample :
     spec (observe c q) = false := by
   decide
 
-/-- **`p.plainY` cannot be dropped, 3** (genuine divergence of the code as it is, finding
-    `generator-based-asyncio_fn-rejected-at-yield`; third audit A3): `r = yield f.asynq(1)` where `f` is declared
-    `@asynq(asyncio_fn=g)` and `g` is a generator-based coroutine (`@types.coroutine def g(x): r = yield from
-    base.asyncio(x).__await__(); return r`): `fn(args)` runs the child and returns; `await fn.asyncio(args)` raises TypeError
-    "Unknown structured awaitable type: <class 'generator'>" at the yield (`isinstance(x, collections.abc.Awaitable)` in
-    asynq_to_async.py `resolve_awaitables` is False for a generator-based coroutine, which `await` accepts and
-    `inspect.isawaitable` recognises) and the child never starts; inside a list the same, after the siblings have finished;
-    the observer rejects both ("with or without an explicit asyncio_fn") -/
-theorem C15_generator_coroutine_asyncio_fn_counterexample :
+/-- (after the repair /repo 6607af4 of the former finding `generator-based-asyncio_fn-rejected-at-yield`, third audit A3)
+    `r = yield f.asynq(1)` where `f` is declared `@asynq(asyncio_fn=g)` and `g` is a generator-based coroutine
+    (`@types.coroutine def g(x): r = yield from base.asyncio(x).__await__(); return r`): `resolve_awaitables` now tests
+    `inspect.isawaitable(x)` and awaits the generator object like every other form of an asyncio_fn - bare and inside a list
+    both engines deliver the child's value, the asyncio run enters the asyncio_fn (`afn 1`) and runs the child, `Ys.gco` is
+    inside `plainY` and the observer accepts.  The OLD behaviour (TypeError "Unknown structured awaitable type" delivered at the
+    yield, the child never started) is still rejected: clause "equiv" / "deliveries" - a regression is a violation -/
+theorem C15_generator_coroutine_asyncio_fn_repaired :
     let c : Call := { kind := .gen, afn := false, label := 0 }
     let f : Ys := .gco (.task { kind := .gen, afn := true, label := 1 } (.ret 5))
     let p : Prog := .yld false f (.ret 1) .reraise
     let q : Prog := .yld false (.lst (.cons (.task { kind := .gen, afn := false, label := 2 } (.ret 4)) (.cons f .nil))) (.ret 1) (.ret 2)
-    p.safe = true ∧ p.noSync = true ∧ p.validCalls = true ∧ p.plainY = false ∧
-    (topCall c p {}).1 = .ok (.node 1 [.node 5 []]) ∧ (topA c p {}).1 = .err .typeerr ∧
-    (topA c p {}).2.log.all (fun e => e.label != 1) = true ∧ spec (observe c p) = false ∧ specClause (observe c p) = "equiv" ∧
-    (topCall c q {}).1 = .ok (.node 1 [.lst [.node 4 [], .node 5 []]]) ∧ (topA c q {}).1 = .ok (.node 2 []) ∧
-    (topA c q {}).2.log.any (fun e => e == .run 0 1 true true (.err .typeerr)) = true ∧ spec (observe c q) = false := by
+    let old : List Obs → List Obs := fun obs => obs.map (fun ob => if ob.conv.isAio then
+      { ob with out := .err .typeerr,
+                log := [.start 0 true, .run 0 1 true true (.err .typeerr), .fin 0 (.err .typeerr)] } else ob)
+    p.plainY = true ∧ q.plainY = true ∧ p.safe = true ∧ p.validCalls = true ∧
+    (topCall c p {}).1 = .ok (.node 1 [.node 5 []]) ∧ (topA c p {}).1 = .ok (.node 1 [.node 5 []]) ∧
+    (topA c p {}).2.log.reverse = [.start 0 true, .afn 1, .start 1 true, .fin 1 (.ok (.node 5 [])),
+      .run 0 1 true true (.ok (.node 5 [])), .fin 0 (.ok (.node 1 [.node 5 []]))] ∧
+    specP c p (observe c p) = true ∧
+    (topCall c q {}).1 = .ok (.node 1 [.lst [.node 4 [], .node 5 []]]) ∧ (topA c q {}).1 = (topCall c q {}).1 ∧
+    specP c q (observe c q) = true ∧
+    specClause (old (observe c p)) = "equiv" ∧ spec (old (observe c p)) = false := by
   decide
 
-/-- **`pm = false` cannot be dropped** (genuine gap of the code as it is, finding `pure-method-has-no-asyncio`; third audit
-    B8): for `class C: @asynq(pure=True) def m(self, x): ...` the expression `C().m.asyncio(1)` raises AttributeError
-    ("'PureAsyncDecoratorBinder' object has no attribute 'asyncio'") while `C().m(1).value()` returns and the same function
-    outside a class (`observe`, `pm = false`) has `.asyncio`; nothing runs, the flag stays off; the observer rejects it -/
-theorem C15_pure_method_root_counterexample :
+/-- (after the repair /repo fec982c of the former finding `pure-method-has-no-asyncio`, third audit B8) for
+    `class C: @asynq(pure=True) def m(self, x): ...` the expression `C().m.asyncio(1)` now exists
+    (`PureAsyncDecoratorBinder.asyncio`) and is what `asyncio` of the same function outside a class is: the observations of
+    a case with a pure-method root (`observeR true`) are the ordinary ones and the observer accepts them.  The OLD behaviour
+    (AttributeError before anything runs: outcome `Err.other`, empty log - `oldPureMethodObs`) is still rejected: clause "equiv" -/
+theorem C15_pure_method_root_repaired :
     let c : Call := { kind := .pure, afn := false, label := 0 }
     let p : Prog := .yld false (.task { kind := .gen, afn := false, label := 1 } (.ret 5)) (.ret 1) .reraise
     p.plainY = true ∧ p.safe = true ∧ p.noSync = true ∧ p.validCalls = true ∧
-    specP c p (observe c p) = true ∧
-    (observeR true c p).all (fun ob => !ob.conv.isAio || (ob.out == .err .other && ob.log == [] && !ob.after)) = true ∧
-    (observeR true c p).all (fun ob => ob.conv.isAio || ob.out == .ok (.node 1 [.node 5 []])) = true ∧
-    specClausePR true c p (observeR true c p) = "equiv" ∧ specPR true c p (observeR true c p) = false := by
+    observeR true c p = observe c p ∧
+    (observeR true c p).all (fun ob => ob.out == .ok (.node 1 [.node 5 []]) && !ob.after) = true ∧
+    specPR true c p (observeR true c p) = true ∧
+    specClausePR true c p (oldPureMethodObs c p) = "equiv" ∧ specPR true c p (oldPureMethodObs c p) = false := by
   decide
 
 /-- (after the repair of `non-const-future-yield-rejected-by-asyncio`) an ErrorFuture / a lazy Future made in a yield is
